@@ -2,6 +2,7 @@ SPECIFICATION TSpec
 CONSTANTS
   Vals = {0}
   Kinds = {}
+  MaxEdits = 0
   Slopes2 = {0}
   Icpts = {0}
   Variant = "required"
